@@ -328,11 +328,11 @@ func genDStar(g *vlib.G) {
 	}
 	if thorough {
 		// depth 4 with the full alphabet on three worlds, depth 5 with the
-		// cost alphabet {1, +Inf} and no batches on two.
+		// cost alphabet {1, +Inf} and no batches on one.
 		for w := 0; w < 3; w++ {
 			cfgs = append(cfgs, cfg{w, w % 2, (w + 1) % 3, 4, dsWeights})
 		}
-		cfgs = append(cfgs, cfg{1, 0, 2, 5, []float64{1, inf}}, cfg{0, 1, 1, 5, []float64{1, inf}})
+		cfgs = append(cfgs, cfg{1, 0, 2, 5, []float64{1, inf}})
 	}
 	for _, cf := range cfgs {
 		cf := cf
